@@ -205,7 +205,12 @@ func newDetectionStateFromMonotonicNumbers(monotonicNumbers []*info.PageInfo, is
 		// If feasible, insert current document URL as first page.
 		// Otherwise, we enhance the heuristic: if current document URL fits the paging pattern
 		// of the potential pagination URLs, consider it as first page too.
-		docURL := strings.TrimSuffix(parsedDocURL.String(), "/")
+		// Only the path loses a trailing slash: one that ends the query or the fragment is
+		// part of the address, and the first page must keep the document's own URL.
+		trimmedDocURL := *parsedDocURL
+		trimmedDocURL.Path = strings.TrimSuffix(trimmedDocURL.Path, "/")
+		trimmedDocURL.RawPath = strings.TrimSuffix(trimmedDocURL.RawPath, "/")
+		docURL := trimmedDocURL.String()
 		if pageParamInfo.CanInsertFirstPage(docURL, monotonicNumbers) {
 			pageParamInfo.InsertFirstPage(docURL)
 		} else if candidate.pagePattern.IsPagingURL(docURL) {
